@@ -27,6 +27,8 @@ type TableCase struct {
 	Marshal bool           `json:"fixed_table_is_builder_snapshot,omitempty"`
 	// FinishEvery > 0: Finish is also called after every that many values (several batches, one Writer).
 	FinishEvery int `json:"finish_every,omitempty"`
+	// SysAt > 0: the system symbol table itself is listed among the writer's tables at position SysAt-1
+	SysAt int `json:"system_table_listed_at,omitempty"`
 }
 
 func (k *TableCase) tables() ([]ion.SharedSymbolTable, refsym.Catalog, *refsym.Context) {
@@ -48,7 +50,7 @@ func (k *TableCase) tables() ([]ion.SharedSymbolTable, refsym.Catalog, *refsym.C
 		}
 		ctx.Segs = append(ctx.Segs, refsym.Segment{Slots: slotsOf(t.Symbols[:keep]), N: uint64(n), Name: t.Name, Version: t.Version, Found: true, Import: true})
 	}
-	return ssts, rc, ctx
+	return withSystemAt(ssts, k.SysAt), rc, ctx
 }
 
 // walkSyms calls f for every symbol occurrence of resolved/raw trees in parallel.
@@ -359,6 +361,9 @@ func runC11(c *Ctx) {
 				t.MaxID = int64(r.Intn(ns + 3))
 			}
 			k.Tables = append(k.Tables, t)
+		}
+		if i%5 == 2 {
+			k.SysAt = 1 + int(cs%int64(len(k.Tables)+1))
 		}
 		if k.Fixed {
 			for j := r.Intn(5); j > 0; j-- {
